@@ -10,6 +10,10 @@ import (
 // Mask returns a string with the first `start` and last `end` characters
 func Mask(str, mask string, start, end int) string {
 	l := utf8.RuneCountInString(str)
+	if start > l || end > l {
+		return str
+	}
+
 	ml := l - start - end
 	if ml <= 0 {
 		return str
